@@ -5,6 +5,8 @@ QI   index-domain typing of Transportation1dSorter's conversions: a vector's ind
      a violation; the returned vector has the declared index and value domains
 GZ   the sorter hands the solver only sources of positive supply and sinks of positive demand (each element pushed into
      a sort list is edge-dominated by a positivity test on the same index of another input vector)
+DE   the sorted / filtered view of the problem is never kept across a change of the supplies or demands (balanceDemand): a member
+     derived from u, v, s, d must be re-derived by every writer of them
 AW   totals (totalSupply / totalDemand and any other fold in the unit) are accumulated in 64 bits
 QC   the two callers in DensityLegalizer subscript their per-bin vector with the returned sink index only
      after building the problem with one sink per bin and one source per collected cell
@@ -42,10 +44,19 @@ class Domains:
         self.fields = seeds["fields"]
         self.fseed = seeds["functions"].get(func.short, {})
         self.problems = []
+        self.env = {}           # parameter id of a local lambda -> canonical argument of the call being analysed
+
+    def subst(self, c):
+        if not self.env or not isinstance(c, tuple):
+            return c
+        if c and c[0] == "var" and c[1] in self.env:
+            return self.env[c[1]]
+        return tuple(self.subst(x) if isinstance(x, tuple) else x for x in c)
 
     # -- vectors ---------------------------------------------------------------
     def vec(self, c):
         """{'index': D or None, 'value': D or None} for a vector-valued canonical expression."""
+        c = self.subst(c)
         if c[0] == "field" and c[2] == ("this",) and c[1] in self.fields:
             s = self.fields[c[1]]
             return {"index": s.get("index"), "value": s.get("value")}
@@ -113,6 +124,7 @@ class Domains:
 
     # -- integer values --------------------------------------------------------------
     def value(self, c):
+        c = self.subst(c)
         if c[0] == "lit":
             return ANY
         if c[0] == "index":
@@ -134,11 +146,22 @@ class Domains:
                 return None
             if d.get("_rangevar") is not None:
                 return self.vec(canon(d["_rangevar"]))["value"]
+            if d.get("kind") == "ParmVarDecl":
+                from .common import algo_element_container
+                cont = algo_element_container(d)
+                if cont is not None:
+                    return self.vec(canon(cont))["value"]
+                return None
             if d.get("kind") == "BindingDecl":
                 bs = binding_source(self.func, c[1])
                 if bs:
                     src, pos, dd = bs
                     rv = dd.get("_rangevar")
+                    if rv is None and src[0] == "var":
+                        # `const auto &[i, j, a] = elt;` with elt the element parameter of a lambda given to a std algorithm
+                        from .common import algo_element_container
+                        pd = self.func.unit.by_id.get(src[1])
+                        rv = algo_element_container(pd) if pd is not None and pd.get("kind") == "ParmVarDecl" else None
                     if rv is not None:
                         rc = canon(rv)
                         s = self.fseed.get("params", {}).get(rc[2] if rc[0] == "var" else "")
@@ -162,6 +185,7 @@ def run(ctx, rep, tier):
     rep.rule("QI", "index-domain typing of the sorter's conversions (subscripts and returned vectors)", 8)
     rep.rule("GZ", "zero supplies / zero demands are filtered out before the solver sees them", 2)
     rep.rule("AW", "supply / demand totals accumulated in 64 bits", 2)
+    rep.rule("DE", "no stale memoised preprocessing: a member derived from the problem data is re-derived by every writer of that data (expected count 0)", 0)
     rep.rule("QC", "callers index per-bin vectors with the returned sink index of a problem with one sink per bin", 2)
     for q in ("Transportation1dSorter::convertAssignmentBack", "Transportation1dSorter::convertSolutionBack",
               "Transportation1dSorter::convert"):
@@ -175,23 +199,18 @@ def run(ctx, rep, tier):
 def _extra(ctx, rep):
     check_zero_filter(ctx, rep)
     check_totals(ctx, rep)
+    from .common import check_eager_derived
+    if check_eager_derived(ctx, rep, "DE", class_pred=lambda q: "Transportation1d" in q) == 0:
+        rep.holds("DE", "src/place_global/transportation_1d.*", None, "the 1-D transportation classes keep no memoised function of the problem data",
+                  "the sorter is rebuilt from u, v, s, d by every solve() / assign()")
 
 
-def check_function(ctx, rep, f, seeds):
-    dom = Domains(ctx, f, seeds)
-    n = 0
-    for x in walk(f.body):
-        c = None
-        if x.get("kind") == "CXXOperatorCallExpr" and callee_info(x)["name"] == "operator[]":
-            c = canon(x)
-        elif x.get("kind") == "ArraySubscriptExpr":
-            c = canon(x)
-        if c is None or c[0] != "index":
-            continue
-        v = dom.vec(c[1])
-        e = dom.value(c[2])
-        what = "%s" % pretty(c)
-        n += 1
+def _judge(rep, f, dom, x, c):
+    v = dom.vec(c[1])
+    e = dom.value(c[2])
+    cs = dom.subst(c)
+    what = "%s" % pretty(cs)
+    if True:
         if v["index"] is None:
             rep.unknown("QI", x, f, what, "index domain of %s is not determined (no seed, no sizing expression)" % pretty(c[1]))
         elif e is None:
@@ -203,6 +222,37 @@ def check_function(ctx, rep, f, seeds):
                           "subscript in domain %s used on a vector whose index domain is %s (sized from a different count): "
                           "out-of-bounds access when the two counts differ, e.g. zero supplies/demands dropped by the sorter" % (e, v["index"]),
                           key="%s|%s indexed in wrong domain" % (f.short, pretty(c[1])))
+
+
+def check_function(ctx, rep, f, seeds):
+    dom = Domains(ctx, f, seeds)
+    from .common import local_lambda_calls
+    lam_calls = local_lambda_calls(f)
+    n = 0
+    for x in walk(f.body):
+        c = None
+        if x.get("kind") == "CXXOperatorCallExpr" and callee_info(x)["name"] == "operator[]":
+            c = canon(x)
+        elif x.get("kind") == "ArraySubscriptExpr":
+            c = canon(x)
+        if c is None or c[0] != "index":
+            continue
+        # a subscript inside a lambda stored in a local and invoked by name is judged once per invocation, the lambda's
+        # parameters standing for that invocation's arguments
+        envs = [{}]
+        q = x.get("_p")
+        while q is not None and q is not f.body:
+            if q.get("kind") == "LambdaExpr" and id(q) in lam_calls:
+                lam, calls = lam_calls[id(q)]
+                ps = lam["_lam"].params
+                envs = [dict(e0, **{p_.get("id"): args[i] for i, p_ in enumerate(ps) if i < len(args)}) for e0 in envs for args in calls]
+            q = q.get("_p")
+        for env in envs:
+            dom.env = env
+            _judge(rep, f, dom, x, c)
+            n += 1
+        dom.env = {}
+        continue
     rs = seeds["functions"].get(f.short, {}).get("returns")
     if rs and "index" in rs:
         for x in walk(f.body):
@@ -243,7 +293,7 @@ def check_caller(ctx, rep, f):
     for x in walk(f.body):
         if x.get("kind") == "CXXMemberCallExpr":
             ci = callee_info(x)
-            if ci["name"] == "push_back" and ci["obj"] is not None:
+            if ci["name"] in ("push_back", "emplace_back") and ci["obj"] is not None:
                 oc = canon(ci["obj"])
                 if oc[0] == "var":
                     pushes.setdefault(oc[1], []).append(x)
